@@ -350,6 +350,10 @@ type Ctx struct {
 	epochs   int
 	axiomSet map[string]bool
 	inHint   bool
+	lambdaCache map[string]Term
+	boundNames []string
+	effCache map[string]*effects
+	defs     []Term
 	hintSeen map[string]bool
 }
 
@@ -498,7 +502,7 @@ func (c *Ctx) assert(kind, label string, goal Term, src string, serves []string)
 		c.oblSeen[key] = true
 		sv := append(append([]string{}, c.serves...), serves...)
 		o := &Obligation{Name: name, Base: base, Func: c.FuncName, Kind: kind, Serves: uniq(sv),
-			Hyps: append([]Term{}, c.St.Path...), Goal: goal, Src: src, Pos: c.E.relPos(c.curPos), PathID: c.pathID.String()}
+			Hyps: c.hypsWithDefs(), Goal: goal, Src: src, Pos: c.E.relPos(c.curPos), PathID: c.pathID.String()}
 		o.Decls = c.decls // shared prefix; finalised at end of path (decls only grow)
 		c.obls = append(c.obls, o)
 	}
@@ -549,6 +553,24 @@ func (c *Ctx) applyHints() {
 }
 
 var reBoundVar = regexp.MustCompile(`![qam]\d+`)
+
+// hypsWithDefs: the path plus every definitional axiom that is no longer on it.
+func (c *Ctx) hypsWithDefs() []Term {
+	out := append([]Term{}, c.St.Path...)
+	if len(c.defs) == 0 {
+		return out
+	}
+	have := map[string]bool{}
+	for _, h := range out {
+		have[h.S] = true
+	}
+	for _, d := range c.defs {
+		if !have[d.S] {
+			out = append(out, d)
+		}
+	}
+	return out
+}
 
 func flattenConj(t Term) []Term {
 	if len(t.Conj) == 0 {
@@ -1060,4 +1082,62 @@ func (e *Engine) Assumptions(prop string) []string {
 		"A-DOM: receivers are non-nil; allocation never fails; re-slicing beyond len is outside the subset (checked as an obligation)",
 		"A-SEQ: no concurrent use of a sketch/store; Bins() goroutines are not modelled",
 	}
+}
+
+// Refinements generates the refinement checks of every implementation of an interface method under contract.
+func (e *Engine) Refinements(pi *PkgInfo, key string, ict *Contract, only string) []*FuncResult {
+	i := strings.Index(key, ".")
+	tn, _ := pi.P.Types.Scope().Lookup(key[:i]).(*types.TypeName)
+	if tn == nil {
+		return nil
+	}
+	it, _ := tn.Type().Underlying().(*types.Interface)
+	if it == nil {
+		return nil
+	}
+	var ifn *types.Func
+	for k := 0; k < it.NumMethods(); k++ {
+		if it.Method(k).Name() == key[i+1:] {
+			ifn = it.Method(k)
+		}
+	}
+	if ifn == nil {
+		return nil
+	}
+	var out []*FuncResult
+	for _, n := range e.implementers(it) {
+		ipi := e.ByPath[n.Obj().Pkg().Path()]
+		if ipi == nil {
+			continue
+		}
+		// the method actually selected for *T (may be promoted from an embedded struct)
+		obj, _, _ := types.LookupFieldOrMethod(types.NewPointer(n), true, n.Obj().Pkg(), key[i+1:])
+		mfn, _ := obj.(*types.Func)
+		if mfn == nil {
+			continue
+		}
+		mct := e.contractOf(mfn)
+		name := fmt.Sprintf("%s.%s/refines(%s)", ipi.Name, n.Obj().Name()+"."+key[i+1:], ict.Name)
+		if only != "" && !strings.Contains(name, only) {
+			continue
+		}
+		if mct == nil {
+			// implementations without a contract are not (yet) claimed: listed, not failed
+			out = append(out, &FuncResult{Name: name, Pkg: ipi.Name, Trusted: "NOT UNDER CONTRACT: implementation " + funcKey(mfn) + " has no contract; SInv excludes this dynamic type", Serves: ict.Serves})
+			continue
+		}
+		if !e.invCovers(pi, n) {
+			out = append(out, &FuncResult{Name: name, Pkg: ipi.Name, Trusted: "dynamic type not yet covered by the interface invariant", Serves: ict.Serves})
+			continue
+		}
+		out = append(out, e.VerifyRefinement(pi, ifn, ict, n, mfn, mct))
+	}
+	return out
+}
+
+// invCovers: refinement is only meaningful for dynamic types the interface invariant admits; a marker spec
+// function `Covers$T` declares them.
+func (e *Engine) invCovers(pi *PkgInfo, n *types.Named) bool {
+	_, ok := pi.Spec.Funs["Covers$"+n.Obj().Name()]
+	return ok
 }
